@@ -167,7 +167,7 @@ func runWire(k *hcase, in string) (res result) {
 				goFind("http-segment-content-type", ct, "video/mp2ts")
 			}
 			captured[sv.SequenceNo] = o.body
-			res.tokens = append(res.tokens, fmt.Sprintf("S:%d:%s", sv.SequenceNo, Hx(o.body)))
+			res.tokens = append(res.tokens, fmt.Sprintf("S:%d:%d:%s", sv.SequenceNo, ticksOf(sv.Duration), Hx(o.body)))
 			res.segsDone++
 		}
 	}
@@ -263,8 +263,8 @@ func runWire(k *hcase, in string) (res result) {
 		return
 	}
 	query()
-	if !k.disk {
-		res.tokens = append(res.tokens, "C:"+Hx(sg.VerifCurrentBytes()))
+	if cur, ok, _, _ := sg.VerifCurrent(); ok && !k.disk {
+		res.tokens = append(res.tokens, fmt.Sprintf("C:%d:%s", cur.SequenceNo, Hx(sg.VerifCurrentBytes())))
 	}
 	// Stream.Close closes the muxer, the generator and the playlist: nothing may be left behind
 	s.Close()
